@@ -1036,6 +1036,54 @@ func reencode(arr []interface{}, style int) string {
 
 const b64url = "ABCDEFGHIJKLMNOPQRSTUVWXYZabcdefghijklmnopqrstuvwxyz0123456789-_"
 
+// signPayload: the issuer's key over a payload of the attacker's (or a careless issuer's) making.
+func signPayload(mod map[string]interface{}) (string, bool) {
+	tok, err := afjwt.NewSigned(mod, nil, pIssuer.signer)
+	if err != nil {
+		return "", false
+	}
+
+	ser, err := tok.Serialize(false)
+
+	return ser, err == nil
+}
+
+// errClass: the class of the error verifier.Parse reported, by its message (Walk.v wclass_code; 0 = no error).
+func errClass(err error) int {
+	if err == nil {
+		return 0
+	}
+
+	m := err.Error()
+	has := func(x string) bool { return strings.Contains(m, x) }
+
+	switch {
+	case has("run holder verification"):
+		return 10
+	case has("check disclosures: duplicate values"):
+		return 3
+	case has("has been included in more than one place"):
+		return 5
+	case has("invald disclosure associated with"):
+		return 6
+	case has("already exists at the same level"):
+		return 7
+	case has("invalid array struct"), has("get disclosure digests"):
+		return 8
+	case has("not found in SD-JWT disclosure digests"):
+		return 9
+	case has("failed to decode disclosure"), has("failed to unmarshal disclosure array"), has("disclosure array size"),
+		has("disclosure salt type"), has("disclosure name type"):
+		return 4
+	case has("invalid JWT time values"):
+		return 2
+	case has(common.SDAlgorithmKey):
+		return 11
+	}
+
+	return 1
+}
+
 // textVariant returns another string for the same disclosure.
 func textVariant(d, kind string) (string, bool) {
 	switch kind {
@@ -1082,6 +1130,7 @@ func (r *runner) play(sc *Scenario, is *issued, p *Play, dist []string) {
 
 	cfi := is.cfi
 	expectReject := false
+	crafted := false
 	sigOK := true
 	presented := append([]string{}, chosen...)
 	selPaths := append([]string{}, p.Sel...)
@@ -1258,15 +1307,16 @@ func (r *runner) play(sc *Scenario, is *issued, p *Play, dist []string) {
 		}
 
 		mod, _ := plain(is.payload).(map[string]interface{})
-		mod["zz"] = map[string]interface{}{common.SDKey: []interface{}{hashOf(o.Alg, victimStr)}}
-
-		tok, err := afjwt.NewSigned(mod, nil, pIssuer.signer)
-		if err != nil {
-			return
+		if victim.e == 2 {
+			// (an element disclosure under "_sd" would race, in Go's random member order, between "more than one place"
+			// and the arity error: keep the class of the first error determined)
+			mod["zy"] = []interface{}{"first", map[string]interface{}{common.ArrayElementDigestKey: hashOf(o.Alg, victimStr)}}
+		} else {
+			mod["zz"] = map[string]interface{}{common.SDKey: []interface{}{hashOf(o.Alg, victimStr)}}
 		}
 
-		ser, err := tok.Serialize(false)
-		if err != nil {
+		ser, ok := signPayload(mod)
+		if !ok {
 			return
 		}
 
@@ -1274,6 +1324,64 @@ func (r *runner) play(sc *Scenario, is *issued, p *Play, dist []string) {
 		is2.payload = mod
 		is = &is2
 		cfp.SDJWT = ser
+	case "iss-elem-in-sd", "iss-sd-in-array", "iss-clash", "iss-clash-sd", "iss-dots-nonstring", "iss-sd-nonlist", "iss-sd-nonstring-item",
+		"iss-extra-ok", "iss-extra-elem-ok", "iss-extra-nested-ok":
+		// a dishonest (or careless) issuer signs a payload of its own making: exactly one defect is planted per play, so
+		// that the class of the first error does not depend on Go's random order over map members
+		mod, _ := plain(is.payload).(map[string]interface{})
+		h := func(d string) string { return hashOf(o.Alg, d) }
+		dots := common.ArrayElementDigestKey
+
+		switch p.Attack {
+		case "iss-elem-in-sd": // a two-element disclosure behind an "_sd" digest
+			x := craft("c2FsdDI", "elemval")
+			mod["zz"] = map[string]interface{}{common.SDKey: []interface{}{h(x)}}
+			presented = append(presented, x)
+		case "iss-sd-in-array": // a three-element disclosure behind an array element digest
+			x := craft("c2FsdDM", "nm", "sdval")
+			mod["zy"] = []interface{}{"first", map[string]interface{}{dots: h(x)}}
+			presented = append(presented, x)
+		case "iss-clash": // a disclosed member whose name the object already has
+			x := craft("c2FsdDQ", "twice", "forged")
+			mod["zz"] = map[string]interface{}{"twice": "plainval", common.SDKey: []interface{}{h(x)}}
+			presented = append(presented, x)
+		case "iss-clash-sd": // two disclosed members of one name in one "_sd" list
+			x, y := craft("c2FsdDQ", "twice", "one"), craft("c2FsdDU", "twice", "two")
+			mod["zz"] = map[string]interface{}{common.SDKey: []interface{}{h(x), h(y)}}
+			presented = append(presented, x, y)
+		case "iss-dots-nonstring":
+			mod["zy"] = []interface{}{map[string]interface{}{dots: float64(5)}}
+		case "iss-sd-nonlist":
+			mod["zz"] = map[string]interface{}{common.SDKey: "nolist"}
+		case "iss-sd-nonstring-item":
+			mod["zz"] = map[string]interface{}{common.SDKey: []interface{}{float64(1)}}
+		case "iss-extra-ok": // consistent: accepted, and the member appears
+			x := craft("c2FsdDY", "nm", "okval")
+			mod["zz"] = map[string]interface{}{"other": "plainval", common.SDKey: []interface{}{h(x)}}
+			presented = append(presented, x)
+		case "iss-extra-elem-ok":
+			x := craft("c2FsdDc", "elemok")
+			mod["zy"] = []interface{}{"first", map[string]interface{}{dots: h(x)}, map[string]interface{}{dots: h("absent")}}
+			presented = append(presented, x)
+		case "iss-extra-nested-ok": // four levels: member -> object with _sd -> array with element digest -> object with _sd
+			d4 := craft("c2FsdDg", "deep", "v4")
+			d3 := craft("c2FsdDk", map[string]interface{}{"k3": "v3", common.SDKey: []interface{}{h(d4)}})
+			d2 := craft("c2FsdDEw", "arr", []interface{}{"e0", map[string]interface{}{dots: h(d3)}})
+			d1 := craft("c2FsdDEx", "top", map[string]interface{}{"k1": "v1", common.SDKey: []interface{}{h(d2)}})
+			mod["zz"] = map[string]interface{}{common.SDKey: []interface{}{h(d1)}}
+			presented = append(presented, d4, d1, d3, d2)
+		}
+
+		ser, ok := signPayload(mod)
+		if !ok {
+			return
+		}
+
+		is2 := *is
+		is2.payload = mod
+		is = &is2
+		cfp.SDJWT = ser
+		crafted = true
 	case "arity1":
 		presented = append(presented, craft("c2FsdA"))
 	case "garbage":
@@ -1295,7 +1403,7 @@ func (r *runner) play(sc *Scenario, is *issued, p *Play, dist []string) {
 		return
 	}
 
-	if p.Attack != "" && p.Attack != "kb-reuse" {
+	if p.Attack != "" && p.Attack != "kb-reuse" && !strings.HasSuffix(p.Attack, "-ok") {
 		expectReject = true
 	}
 
@@ -1392,9 +1500,12 @@ func (r *runner) play(sc *Scenario, is *issued, p *Play, dist []string) {
 		outTerm = is.s.val(outPlain, false)
 	}
 
-	rec.Coq = fmt.Sprintf("CVerify {| vo_required := %s; vo_nonce := %s; vo_aud := %s; vo_now := (%d)%%Z; vo_leeway := 60%%Z |} {| p_sig_ok := %s; p_payload := %s; p_discs := %s; p_hb := %s |} %s %s",
+	ecls := errClass(verr)
+	rec.Observed.(map[string]interface{})["errclass"] = ecls
+	rec.Class += fmt.Sprintf("|e%d", ecls)
+	rec.Coq = fmt.Sprintf("CVerifyW {| vo_required := %s; vo_nonce := %s; vo_aud := %s; vo_now := (%d)%%Z; vo_leeway := 60%%Z |} {| p_sig_ok := %s; p_payload := %s; p_discs := %s; p_hb := %s |} %s %s %d%%N",
 		hx.CoqBool(p.Required), hx.CoqString(p.VNonce), hx.CoqString(p.VAud), verifyNow.Unix(), hx.CoqBool(sigOK), is.s.val(is.payload, false), is.s.discs(presented), hbTerm,
-		hx.CoqBool(accepted), outTerm)
+		hx.CoqBool(accepted), outTerm, ecls)
 
 	switch {
 	case vpanic != nil:
@@ -1409,7 +1520,7 @@ func (r *runner) play(sc *Scenario, is *issued, p *Play, dist []string) {
 
 	r.put(rec)
 
-	if expectReject || !accepted {
+	if expectReject || !accepted || crafted {
 		return
 	}
 
@@ -1964,7 +2075,9 @@ func stripNulls(v interface{}) interface{} {
 }
 
 var attacks = []string{"foreign", "foreign-crafted", "duplicate", "alter-value", "alter-name", "alter-salt", "reencode", "arity4",
-	"as-element", "arity1", "garbage", "bad-issuer-sig", "dup-digest"}
+	"as-element", "arity1", "garbage", "bad-issuer-sig", "dup-digest",
+	"iss-elem-in-sd", "iss-sd-in-array", "iss-clash", "iss-clash-sd", "iss-dots-nonstring", "iss-sd-nonlist", "iss-sd-nonstring-item",
+	"iss-extra-ok", "iss-extra-elem-ok", "iss-extra-nested-ok"}
 
 // hbPlays: {expected nonce set/unset} x {expected audience set/unset} x {binding nonce right/wrong/absent} x
 // {binding audience right/wrong/absent}, required; plus not-required, attacker-key and missing-binding plays.
